@@ -120,7 +120,9 @@ func (p *contentProvider) findOffset(filename bool, r uint32) uint32 {
 	if filename {
 		data = p.id.fileNameContent[byteOff:]
 	} else {
-		data, p.err = p.id.readContentSlice(byteOff, 3*runeOffsetFrequency)
+		// A rune takes up to utf8.UTFMax bytes, and up to runeOffsetFrequency-1 runes are
+		// skipped below.
+		data, p.err = p.id.readContentSlice(byteOff, utf8.UTFMax*runeOffsetFrequency)
 		if p.err != nil {
 			return 0
 		}
